@@ -8,9 +8,18 @@
              (operator-level cases) — then the statement's projection;
     K      = implementation rows = model rows as bags (an engine error or panic never agrees);
     O      = `Spec.acceptable plan tables impl_rows` (Driver.SQL machinery; engine error = failure: `strict_err`);
-    attr   = id of the listed finding whose deviation switch makes the model reproduce the implementation's rows
-             exactly, tried only where the switch can apply (see `switchSets`), while the all-off model satisfies the
-             oracle; the INTEGER/BIGINT key panic (C22-F3) is attributed by signature + neutralised twin.
+    attr   = id of the listed finding that fully explains a failing case, decided only when the all-off model satisfies the
+             oracle on that case:
+             * C22-F1 / F2 / F5: the model with exactly that finding's deviation switch(es) reproduces the implementation's
+               rows as a bag; each switch is tried only where its code path is taken (`switchSets`: Semi/Anti with a
+               residual; the 1000-probe-row gate; single BIGINT key and compiled residual; build side).  Over Parquet the
+               build-row order and the raw value of NULL slots are not part of a case: F2 / F5 are then decided by the
+               signature `sigServed` under the same gating;
+             * C22-F3 (INTEGER/BIGINT key pair): signature over the case + the error text, and the neutralised twin (the
+               INTEGER column declared BIGINT) is answered correctly;
+             * C22-F4 (batch-less build input of a probe-preserving join): signature mirroring the failing arm of
+               `create_joined_batch` + the error text.
+             Anything else is left unattributed (a new VIOLATION).
 -/
 import Driver.SqlCore
 import IQE.Engine.HashJoin
